@@ -18,6 +18,7 @@ type J = jx.J
 
 func main() {
 	c := core.New("C02")
+	c.ReplayFallback()
 	swagger := c.BuildSwagger()
 	atoms := specgen.SchemaAtoms()
 	positions := []string{"def", "reqprop", "optprop", "items"}
